@@ -2,16 +2,36 @@
 
 package tsi
 
+// C10 — series index is exact: one stable id per series, predicates match precisely.
+//
+// In-package harness (overlaid as engine/index/tsi/zz_verif_c10_test.go).  Two parts:
+//
+//  1. bounded history exploration on a real IndexBuilder/MergeSetIndex (fresh directory per
+//     sequence): ops {insert k in K, flush, clear caches, restart (close + new objects, logical
+//     clock+1), reopen (Close/Open of the same objects)}; after EVERY step the id oracle and the
+//     listing oracle run; on the final state of every maximal sequence the one-atom predicate
+//     sweep runs through all search entry points.
+//  2. predicate sweeps: every predicate tree with <= 2 (quick) / <= 3 (thorough) atoms over a set
+//     of fixed rich index states ("scenarios").
+//
+// Oracle: brute force over the series the index itself lists as visible (flushed <= visible <=
+// inserted), Go regexp unanchored, absent tag = "".
+
 import (
 	"fmt"
 	"os"
 	"path/filepath"
+	"regexp"
+	"regexp/syntax"
 	"sort"
+	"strings"
 	"testing"
 	"time"
 
 	"github.com/openGemini/openGemini/lib/config"
 	"github.com/openGemini/openGemini/lib/index"
+	"github.com/openGemini/openGemini/lib/logger"
+	"github.com/openGemini/openGemini/lib/util/lifted/influx/influxql"
 	"github.com/openGemini/openGemini/lib/util/lifted/influx/meta"
 	"github.com/openGemini/openGemini/lib/util/lifted/influx/query"
 	"github.com/openGemini/openGemini/lib/util/lifted/vm/protoparser/influx"
@@ -19,12 +39,102 @@ import (
 	"github.com/savsgio/dictpool"
 )
 
+// ---------------------------------------------------------------------------------------------
+// series keys
+
 type c10Tag struct{ K, V string }
 
 type c10Key struct {
-	Mst  string
-	Tags []c10Tag // sorted by key
+	Mst  int // index into c10Msts
+	Tags []c10Tag
 }
+
+var c10Msts = []string{"m_0000", "mm_0000"}
+
+const c10Special = "a b,c=d\x00\x01\x02"
+
+// K = 8 series keys over 2 measurements (names share a prefix), tag keys sharing a prefix
+// (host/hosts), values sharing prefixes (a/ab/xa), values with ',' '=' ' ', the mergeset separator
+// bytes 0x00-0x02, 'é', series lacking host, lacking region, lacking every tag.
+// (A tag with an empty value cannot be written: the line-protocol parser drops it, see c10WritePathNote.)
+var c10Keys = []c10Key{
+	{0, []c10Tag{{"host", "a"}, {"region", "b"}}},
+	{0, []c10Tag{{"host", "b"}, {"region", "a"}}},
+	{0, []c10Tag{{"host", "ab"}, {"hosts", "b"}}},
+	{0, []c10Tag{{"region", "ab"}}},
+	{0, []c10Tag{{"host", "xa"}, {"region", "é"}}},
+	{0, []c10Tag{{"host", c10Special}, {"region", "b=,a"}}},
+	{1, []c10Tag{{"host", "a"}, {"region", "a"}}},
+	{1, nil},
+}
+
+const c10NK = 8
+
+var c10MstMask [2]uint16
+var c10IndexKeys [c10NK][]byte
+var c10Render [c10NK]string
+
+func (k c10Key) tag(key string) string {
+	for _, t := range k.Tags {
+		if t.K == key {
+			return t.V
+		}
+	}
+	return ""
+}
+
+func (k c10Key) row() influx.Row {
+	r := influx.Row{Name: c10Msts[k.Mst]}
+	r.Tags = make(influx.PointTags, len(k.Tags))
+	for i, t := range k.Tags {
+		r.Tags[i].Key, r.Tags[i].Value = t.K, t.V
+	}
+	sort.Sort(&r.Tags)
+	r.Timestamp = 1
+	r.UnmarshalIndexKeys(nil)
+	r.ShardKey = r.IndexKey
+	return r
+}
+
+// render mirrors influx.Parse2SeriesKey(key, dst, false): name,k=v,k=v without escaping.
+func (k c10Key) render() string {
+	ts := append([]c10Tag(nil), k.Tags...)
+	sort.Slice(ts, func(i, j int) bool { return ts[i].K < ts[j].K })
+	s := c10Msts[k.Mst]
+	for _, t := range ts {
+		s += "," + t.K + "=" + t.V
+	}
+	return s
+}
+
+func c10InitKeys() {
+	seen := map[string]bool{}
+	for i, k := range c10Keys {
+		c10MstMask[k.Mst] |= 1 << uint(i)
+		r := k.row()
+		c10IndexKeys[i] = append([]byte(nil), r.IndexKey...)
+		c10Render[i] = k.render()
+		if seen[c10Render[i]] {
+			panic("c10: rendered keys collide")
+		}
+		seen[c10Render[i]] = true
+	}
+}
+
+func c10MaskString(m uint16) string {
+	var s []string
+	for i := 0; i < c10NK; i++ {
+		if m&(1<<uint(i)) != 0 {
+			s = append(s, fmt.Sprintf("k%d", i))
+		}
+	}
+	return "{" + strings.Join(s, ",") + "}"
+}
+
+// ---------------------------------------------------------------------------------------------
+// the index under test
+
+const c10SeqSeed = 1000
 
 type c10Index struct {
 	path    string
@@ -60,95 +170,1225 @@ func c10Open(path string, clock uint64, seq *uint64) *c10Index {
 		panic(err)
 	}
 	b.Relations[uint32(index.MergeSet)] = rel
-	if err := b.Open(); err != nil {
+	x := &c10Index{path: path, clock: clock, seq: seq, builder: b, idx: pi.(*MergeSetIndex)}
+	x.open()
+	return x
+}
+
+// open opens the builder and stops the table's background flusher and part mergers, so that
+// visibility and part layout are decided by the explored operations only (determinism).
+func (x *c10Index) open() {
+	if err := x.builder.Open(); err != nil {
 		panic(err)
 	}
-	m := pi.(*MergeSetIndex)
-	return &c10Index{path: path, clock: clock, seq: seq, builder: b, idx: m}
+	x.idx.tb.StopMergeAndFlusher()
 }
 
-func (k c10Key) row() influx.Row {
-	r := influx.Row{Name: k.Mst}
-	r.Tags = make(influx.PointTags, len(k.Tags))
-	for i, t := range k.Tags {
-		r.Tags[i].Key, r.Tags[i].Value = t.K, t.V
+func (x *c10Index) close() {
+	if err := x.builder.Close(); err != nil {
+		panic(err)
 	}
-	sort.Sort(&r.Tags)
-	r.Timestamp = 1
-	r.UnmarshalIndexKeys(nil)
-	r.ShardKey = r.IndexKey
-	return r
 }
 
-func (x *c10Index) insert(k c10Key) (uint64, error) {
-	rows := []influx.Row{k.row()}
+// insert goes through IndexBuilder.CreateIndexIfNotExists (the engine's write path).
+func (x *c10Index) insert(k int, direct bool) (uint64, error) {
+	rows := []influx.Row{c10Keys[k].row()}
 	d := &dictpool.Dict{}
-	d.Set(k.Mst, &rows)
-	if err := x.builder.CreateIndexIfNotExists(d, false); err != nil {
+	d.Set(c10Msts[c10Keys[k].Mst], &rows)
+	var err error
+	if direct {
+		err = x.idx.CreateIndexIfNotExists(d)
+	} else {
+		err = x.builder.CreateIndexIfNotExists(d, false)
+	}
+	if err != nil {
 		return 0, err
 	}
 	return rows[0].SeriesId, nil
 }
 
-func TestVerifC10Probe(t *testing.T) {
+// ---------------------------------------------------------------------------------------------
+// atoms and predicate trees
+
+const (
+	c10ClsExact  = 0 // must be exact everywhere
+	c10ClsU      = 1 // regex, not a pure literal, not fully anchored, not trivially match-all
+	c10ClsX      = 2 // regex ^literal$ (non-empty literal): exact after the select path's rewrite, raw on the show path
+	c10ClsZ      = 3 // regex that matches "" only because of anchors (/^$/): same
+	c10NPaths    = 2
+	c10PathRaw   = 0 // condition as parsed (SHOW SERIES / SHOW TAG VALUES / cardinality path)
+	c10PathSel   = 1 // condition after SelectStatement.RewriteRegexConditions (SELECT path)
+	c10Placehold = "C10SPECIALVALUE"
+)
+
+type c10Atom struct {
+	Key   string
+	Op    string // = != =~ !~
+	Val   string
+	Text  string
+	Class int
+	// NilNeg: `key !~ /re/` with a regex that matches the empty string.  The index answers such an atom with a
+	// nil id set, which the show path's AND treats as "no constraint" (known defect, see c10KindNilNeg).
+	NilNeg bool
+	True   uint16 // keys (all measurements) whose tags satisfy the atom
+	ident  string
+}
+
+var c10AtomList []c10Atom
+var c10AtomByIdent = map[string]int{}
+var c10NCoreAtoms int
+
+func c10RegexClass(src string) int {
+	re, err := syntax.Parse(src, syntax.Perl)
+	if err != nil {
+		panic(err)
+	}
+	re = re.Simplify()
+	if re.Op == syntax.OpLiteral && re.Flags&syntax.FoldCase == 0 {
+		return c10ClsExact // pure literal: substring match expected and implemented
+	}
+	hasAnchor := strings.ContainsAny(src, "^$") || strings.Contains(src, `\b`) || strings.Contains(src, `\A`) || strings.Contains(src, `\z`)
+	matchesEmpty := regexp.MustCompile(src).MatchString("")
+	if matchesEmpty && !hasAnchor {
+		return c10ClsExact // unanchored and matches "": matches every value
+	}
+	if matchesEmpty {
+		return c10ClsZ
+	}
+	if re.Op == syntax.OpConcat && len(re.Sub) >= 2 &&
+		(re.Sub[0].Op == syntax.OpBeginText || re.Sub[0].Op == syntax.OpBeginLine) &&
+		(re.Sub[len(re.Sub)-1].Op == syntax.OpEndText || re.Sub[len(re.Sub)-1].Op == syntax.OpEndLine) {
+		inner := re.Sub[1 : len(re.Sub)-1]
+		if len(inner) == 1 && inner[0].Op == syntax.OpLiteral && inner[0].Flags&syntax.FoldCase == 0 {
+			return c10ClsX
+		}
+		return c10ClsExact // other fully anchored forms: demanded exact
+	}
+	return c10ClsU
+}
+
+func c10AtomIdent(key, op, val string, isRe bool) string {
+	return fmt.Sprintf("%s\x00%s\x00%v\x00%s", key, op, isRe, val)
+}
+
+func c10InitAtoms() {
+	add := func(key, op, val string, isRe bool, text string) {
+		a := c10Atom{Key: key, Op: op, Val: val, Text: text, ident: c10AtomIdent(key, op, val, isRe)}
+		var re *regexp.Regexp
+		if isRe {
+			re = regexp.MustCompile(val)
+			a.Class = c10RegexClass(val)
+			a.NilNeg = op == "!~" && re.MatchString("")
+		}
+		for i, k := range c10Keys {
+			v := k.tag(key) // absent tag behaves as ""
+			var ok bool
+			switch op {
+			case "=":
+				ok = v == val
+			case "!=":
+				ok = v != val
+			case "=~":
+				ok = re.MatchString(v)
+			case "!~":
+				ok = !re.MatchString(v)
+			}
+			if ok {
+				a.True |= 1 << uint(i)
+			}
+		}
+		c10AtomByIdent[a.ident] = len(c10AtomList)
+		c10AtomList = append(c10AtomList, a)
+	}
+	strs := []string{"a", "b", ""}
+	res := []string{"a", "^a$", "a|b", "[ab]", "a.*", ".*", "^$"}
+	for _, key := range []string{"host", "region"} {
+		for _, op := range []string{"=", "!="} {
+			for _, v := range strs {
+				add(key, op, v, false, fmt.Sprintf("%s %s '%s'", key, op, v))
+			}
+		}
+		for _, op := range []string{"=~", "!~"} {
+			for _, v := range res {
+				add(key, op, v, true, fmt.Sprintf("%s %s /%s/", key, op, v))
+			}
+		}
+	}
+	c10NCoreAtoms = len(c10AtomList)
+	// extension: equality on the value holding ',', '=', ' ' and the separator bytes, a key that shares a
+	// prefix with host, an absent key (used in trees of <= 2 atoms only)
+	add("host", "=", c10Special, false, "host = '"+c10Placehold+"'")
+	add("host", "!=", c10Special, false, "host != '"+c10Placehold+"'")
+	add("hosts", "=", "b", false, "hosts = 'b'")
+	add("zone", "!=", "a", false, "zone != 'a'")
+	add("region", "=~", "é", true, "region =~ /é/")
+}
+
+type c10Tree struct {
+	Text string
+	expr [c10NPaths]influxql.Expr
+}
+
+func c10Parse(text string) influxql.Expr {
+	e := MustParseExpr(text) // the package tests' helper: parses and types every VarRef as a tag
+	influxql.WalkFunc(e, func(n influxql.Node) {
+		if s, ok := n.(*influxql.StringLiteral); ok && s.Val == c10Placehold {
+			s.Val = c10Special
+		}
+	})
+	return e
+}
+
+func c10NewTree(text string) *c10Tree {
+	t := &c10Tree{Text: text}
+	t.expr[c10PathRaw] = c10Parse(text)
+	st := &influxql.SelectStatement{Condition: c10Parse(text)}
+	st.RewriteRegexConditions(nil) // what query compilation does before a SELECT reaches the index
+	t.expr[c10PathSel] = st.Condition
+	return t
+}
+
+// c10AtomOf identifies a leaf of the raw (un-rewritten) tree.
+func c10AtomOf(b *influxql.BinaryExpr) int {
+	ref, ok := b.LHS.(*influxql.VarRef)
+	if !ok {
+		panic("c10: atom without VarRef on the left: " + b.String())
+	}
+	var op string
+	switch b.Op {
+	case influxql.EQ:
+		op = "="
+	case influxql.NEQ:
+		op = "!="
+	case influxql.EQREGEX:
+		op = "=~"
+	case influxql.NEQREGEX:
+		op = "!~"
+	default:
+		panic("c10: unexpected operator in " + b.String())
+	}
+	var id string
+	switch v := b.RHS.(type) {
+	case *influxql.StringLiteral:
+		id = c10AtomIdent(ref.Val, op, v.Val, false)
+	case *influxql.RegexLiteral:
+		id = c10AtomIdent(ref.Val, op, v.Val.String(), true)
+	default:
+		panic("c10: unexpected literal in " + b.String())
+	}
+	i, ok := c10AtomByIdent[id]
+	if !ok {
+		panic("c10: unknown atom " + b.String())
+	}
+	return i
+}
+
+// c10Eval evaluates the raw tree over key masks; leaf gives the mask of the n-th leaf (atom index a).
+func c10Eval(e influxql.Expr, n *int, leaf func(n, a int) uint16) uint16 {
+	switch x := e.(type) {
+	case *influxql.ParenExpr:
+		return c10Eval(x.Expr, n, leaf)
+	case *influxql.BinaryExpr:
+		switch x.Op {
+		case influxql.AND:
+			l := c10Eval(x.LHS, n, leaf)
+			r := c10Eval(x.RHS, n, leaf)
+			return l & r
+		case influxql.OR:
+			l := c10Eval(x.LHS, n, leaf)
+			r := c10Eval(x.RHS, n, leaf)
+			return l | r
+		default:
+			a := c10AtomOf(x)
+			m := leaf(*n, a)
+			*n++
+			return m
+		}
+	}
+	panic(fmt.Sprintf("c10: unexpected node %T", e))
+}
+
+func c10Leaves(e influxql.Expr) []int {
+	var out []int
+	n := 0
+	c10Eval(e, &n, func(_ int, a int) uint16 { out = append(out, a); return 0 })
+	return out
+}
+
+// ---------------------------------------------------------------------------------------------
+// state = real index + reference model
+
+type c10State struct {
+	x        *c10Index
+	ids      [c10NK]uint64
+	inserted uint16
+	pending  uint16 // inserted, not yet flushed by an explored operation
+	uncached uint16 // pending and the caches were dropped since the insert
+	visible  uint16 // what the index lists (flushed <= visible <= inserted), refreshed by listing()
+	label    string
+	replay   func(tree string) any
+	// observed one-atom results per path (for the known-defect classification of bigger trees)
+	atomObs   [c10NPaths][]uint16
+	atomObsOK bool
+	kinds     []string // kinds of the violations reported on this state, in order
+}
+
+type c10Case struct {
+	Kind     string   `json:"kind"` // "history" | "scenario"
+	Ops      []string `json:"ops,omitempty"`
+	Scenario string   `json:"scenario,omitempty"`
+	Tree     string   `json:"tree,omitempty"`
+}
+
+func (st *c10State) idToKey(id uint64) int {
+	for i := 0; i < c10NK; i++ {
+		if st.ids[i] == id && id != 0 {
+			return i
+		}
+	}
+	return -1
+}
+
+func (st *c10State) maskOfIDs(ids []uint64) (uint16, error) {
+	var m uint16
+	seen := map[uint64]bool{}
+	for _, id := range ids {
+		if seen[id] {
+			return 0, fmt.Errorf("id %x returned twice", id)
+		}
+		seen[id] = true
+		k := st.idToKey(id)
+		if k < 0 {
+			return 0, fmt.Errorf("unknown id %x returned", id)
+		}
+		m |= 1 << uint(k)
+	}
+	return m, nil
+}
+
+func (st *c10State) maskOfTexts(keys [][]byte) (uint16, error) {
+	var m uint16
+	for _, b := range keys {
+		k := -1
+		for i := 0; i < c10NK; i++ {
+			if c10Render[i] == string(b) {
+				k = i
+			}
+		}
+		if k < 0 {
+			return 0, fmt.Errorf("unknown series key %q returned", b)
+		}
+		if m&(1<<uint(k)) != 0 {
+			return 0, fmt.Errorf("series key %q returned twice", b)
+		}
+		m |= 1 << uint(k)
+	}
+	return m, nil
+}
+
+func (st *c10State) violation(rep *kit.Report, kind, what, detail, tree string) {
+	st.kinds = append(st.kinds, kind)
+	rep.Violation(kind, st.label+" :: "+what, detail, st.replay(tree))
+}
+
+// idOracle: id(k) defined <=> inserted, unchanged since first assignment (a pending series whose
+// cache entry was dropped may be reported as not found: visibility, DESIGN §3a).
+func (st *c10State) idOracle(rep *kit.Report) {
+	for k := 0; k < c10NK; k++ {
+		rep.Eval(1)
+		id, err := st.x.idx.GetSeriesIdBySeriesKey(c10IndexKeys[k])
+		bit := uint16(1) << uint(k)
+		switch {
+		case err != nil:
+			st.violation(rep, "id_lookup_error", fmt.Sprintf("lookup k%d", k), err.Error(), "")
+		case st.inserted&bit == 0:
+			if id != 0 {
+				st.violation(rep, "id_for_uninserted_key", fmt.Sprintf("lookup k%d", k), fmt.Sprintf("key %q never inserted, lookup returned id %x", c10Render[k], id), "")
+			}
+		case id == st.ids[k]:
+		case id == 0 && st.uncached&bit != 0:
+			rep.Count("lookup_miss_pending_uncached", 1)
+		case id == 0:
+			st.violation(rep, "id_lost", fmt.Sprintf("lookup k%d", k), fmt.Sprintf("key %q has id %x but lookup finds nothing (pending=%v)", c10Render[k], st.ids[k], st.pending&bit != 0), "")
+		default:
+			st.violation(rep, "id_changed", fmt.Sprintf("lookup k%d", k), fmt.Sprintf("key %q: first id %x, lookup now returns %x", c10Render[k], st.ids[k], id), "")
+		}
+	}
+}
+
+// listing: unconditional listings per measurement; establishes the visible set.
+func (st *c10State) listing(rep *kit.Report) bool {
+	ok := true
+	st.visible = 0
+	for m, name := range c10Msts {
+		rep.Eval(1)
+		ids, err := st.x.idx.SearchSeriesByTableAndCond([]byte(name), nil, DefaultTR)
+		if err != nil {
+			st.violation(rep, "listing_error", name, err.Error(), "")
+			return false
+		}
+		vis, err := st.maskOfIDs(ids)
+		flushed := st.inserted &^ st.pending & c10MstMask[m]
+		switch {
+		case err != nil:
+			st.violation(rep, "listing_wrong_ids", name, err.Error(), "")
+			ok = false
+		case vis&^c10MstMask[m] != 0:
+			st.violation(rep, "listing_foreign_series", name, "ids of another measurement listed: "+c10MaskString(vis&^c10MstMask[m]), "")
+			ok = false
+		case flushed&^vis != 0:
+			st.violation(rep, "listing_missing_flushed_series", name, "flushed series not listed: "+c10MaskString(flushed&^vis), "")
+			ok = false
+		}
+		if !ok {
+			return false
+		}
+		st.visible |= vis
+		// the same listing as series keys, and each series read back by id
+		keys, err := st.x.idx.SearchSeriesKeys(nil, []byte(name), nil)
+		if err != nil {
+			st.violation(rep, "listing_error", name, err.Error(), "")
+			return false
+		}
+		tm, err := st.maskOfTexts(keys)
+		if err != nil || tm != vis {
+			st.violation(rep, "listing_keys_mismatch", name, fmt.Sprintf("ids list %s, keys list %s (%v)", c10MaskString(vis), c10MaskString(tm), err), "")
+			ok = false
+		}
+		for k := 0; k < c10NK; k++ {
+			if vis&(1<<uint(k)) == 0 {
+				continue
+			}
+			var got []string
+			err := st.x.idx.GetSeries(st.ids[k], nil, nil, func(sk *influx.SeriesKey) {
+				s := string(sk.Measurement)
+				for _, t := range sk.TagSet {
+					s += "," + string(t.Key) + "=" + string(t.Value)
+				}
+				got = append(got, s)
+			})
+			if err != nil || len(got) != 1 || got[0] != c10Render[k] {
+				st.violation(rep, "series_readback_mismatch", fmt.Sprintf("k%d", k), fmt.Sprintf("id %x: want %q got %q err %v", st.ids[k], c10Render[k], got, err), "")
+				ok = false
+			}
+		}
+		// series count and tag-key / tag-value listings without a condition
+		n, err := st.x.idx.SeriesCardinality([]byte(name), nil, DefaultTR)
+		if err != nil || int(n) != c10Pop(vis) {
+			st.violation(rep, "cardinality_mismatch", name, fmt.Sprintf("want %d got %d err %v", c10Pop(vis), n, err), "")
+			ok = false
+		}
+		tkeys := []string{"host", "hosts", "region", "zone"}
+		bk := make([][]byte, len(tkeys))
+		for i := range tkeys {
+			bk[i] = []byte(tkeys[i])
+		}
+		tv, err := st.x.idx.SearchTagValues([]byte(name), bk, nil)
+		if err != nil {
+			st.violation(rep, "listing_error", name, err.Error(), "")
+			return false
+		}
+		for i, tk := range tkeys {
+			want := c10TagValues(vis, tk)
+			var got []string
+			if tv != nil {
+				got = append(got, tv[i]...)
+				sort.Strings(got)
+			}
+			if strings.Join(got, "\x1f") != strings.Join(want, "\x1f") {
+				st.violation(rep, "tag_values_listing_mismatch", name+" key "+tk, fmt.Sprintf("visible %s: want %q got %q", c10MaskString(vis), want, got), "")
+				ok = false
+			}
+			c, err := st.x.idx.SearchTagValuesCardinality([]byte(name), []byte(tk))
+			if err != nil || int(c) != len(want) {
+				st.violation(rep, "tag_values_listing_mismatch", name+" key "+tk+" cardinality", fmt.Sprintf("want %d got %d err %v", len(want), c, err), "")
+				ok = false
+			}
+		}
+	}
+	if st.visible&^st.inserted != 0 {
+		panic("c10: visible not within inserted")
+	}
+	return ok
+}
+
+func c10Pop(m uint16) int {
+	n := 0
+	for ; m != 0; m &= m - 1 {
+		n++
+	}
+	return n
+}
+
+func c10TagValues(mask uint16, key string) []string {
+	set := map[string]bool{}
+	for k := 0; k < c10NK; k++ {
+		if mask&(1<<uint(k)) == 0 {
+			continue
+		}
+		for _, t := range c10Keys[k].Tags {
+			if t.K == key {
+				set[t.V] = true
+			}
+		}
+	}
+	out := make([]string, 0, len(set))
+	for v := range set {
+		out = append(out, v)
+	}
+	sort.Strings(out)
+	return out
+}
+
+// ---------------------------------------------------------------------------------------------
+// predicate checking
+
+const c10KindNilNeg = "never_matching_regex_ignored_under_and_on_show_path"
+
+var c10KindOfClass = map[int]string{
+	c10ClsU: "unanchored_nonliteral_regex",
+	c10ClsX: "anchored_literal_regex_as_substring_on_show_path",
+	c10ClsZ: "empty_anchored_regex_as_match_all_on_show_path",
+}
+
+// classify decides whether an observed result that differs from brute force is completely explained
+// by the known per-atom regex defects: every affected leaf may take either its true mask or the mask
+// the index returned for that atom alone on the same state and path; every other leaf and every
+// AND/OR/parenthesis must be exact.  Returns the known kind or "".
+func (st *c10State) classify(t *c10Tree, path int, scope uint16, single int, matches func(hyp uint16) bool) string {
+	if single >= 0 {
+		// a one-atom tree: the atom itself is the unit of the known defects
+		cls := c10AtomList[single].Class
+		if cls == c10ClsU || (path == c10PathRaw && (cls == c10ClsX || cls == c10ClsZ)) {
+			return c10KindOfClass[cls]
+		}
+		return ""
+	}
+	if !st.atomObsOK {
+		return ""
+	}
+	leaves := c10Leaves(t.expr[c10PathRaw])
+	// alternatives per affected leaf: 1 = what the index answers for the atom alone, 2 = "every series"
+	type alt struct{ n, how int }
+	var aff []alt
+	for n, a := range leaves {
+		at := &c10AtomList[a]
+		if at.Class == c10ClsU || (path == c10PathRaw && (at.Class == c10ClsX || at.Class == c10ClsZ)) {
+			aff = append(aff, alt{n, 1})
+		}
+		if path == c10PathRaw && at.NilNeg {
+			aff = append(aff, alt{n, 2})
+		}
+	}
+	if len(aff) == 0 || len(aff) > 8 {
+		return ""
+	}
+	best := ""
+	bestN := 1 << 30
+	for combo := 1; combo < 1<<uint(len(aff)); combo++ {
+		use := map[int]int{}
+		clash := false
+		for i, al := range aff {
+			if combo&(1<<uint(i)) != 0 {
+				if use[al.n] != 0 {
+					clash = true
+				}
+				use[al.n] = al.how
+			}
+		}
+		if clash {
+			continue
+		}
+		n := 0
+		hyp := c10Eval(t.expr[c10PathRaw], &n, func(n, a int) uint16 {
+			switch use[n] {
+			case 1:
+				return st.atomObs[path][a]
+			case 2:
+				return 0xffff
+			}
+			return c10AtomList[a].True
+		}) & scope
+		if !matches(hyp) {
+			continue
+		}
+		// prefer the explanation with the fewest substituted leaves; among those, one that needs no
+		// "nil set = no constraint" substitution; among those, the lowest defect class
+		cls := 99
+		nilneg := 0
+		for n, how := range use {
+			if how == 2 {
+				nilneg = 1
+			} else if c := c10AtomList[leaves[n]].Class; c < cls {
+				cls = c
+			}
+		}
+		score := c10Pop(uint16(combo))*100 + nilneg*10 + cls%10
+		if score < bestN {
+			bestN = score
+			if nilneg == 1 {
+				best = c10KindNilNeg
+			} else {
+				best = c10KindOfClass[cls]
+			}
+		}
+	}
+	return best
+}
+
+func (st *c10State) report(rep *kit.Report, t *c10Tree, path int, api, name string, scope, want uint16, got string, gotMask uint16, hasMask bool, single int, matches func(uint16) bool) {
+	kind := st.classify(t, path, scope, single, matches)
+	if kind == "" {
+		kind = "predicate_mismatch"
+	}
+	d := fmt.Sprintf("%s on %s, condition %s (as sent: %s)\n  visible %s\n  want %s\n  got  %s", api, name, t.Text, t.expr[path].String(), c10MaskString(scope), c10MaskString(want), got)
+	if hasMask {
+		d += fmt.Sprintf("\n  missing %s extra %s", c10MaskString(want&^gotMask), c10MaskString(gotMask&^want))
+	}
+	st.violation(rep, kind, api+"|"+name+"|"+t.Text, d, t.Text)
+}
+
+// checkTree runs one tree through every search entry point on both measurements.
+// full=false skips the text/cardinality variants (used for the 3-atom sweep).
+func (st *c10State) checkTree(rep *kit.Report, t *c10Tree, full bool, single int) {
+	leafTrue := func(_ int, a int) uint16 { return c10AtomList[a].True }
+	for m, name := range c10Msts {
+		scope := st.visible & c10MstMask[m]
+		n := 0
+		want := c10Eval(t.expr[c10PathRaw], &n, leafTrue) & scope
+		bname := []byte(name)
+		rep.Eval(1)
+		if scope != 0 && want != 0 && want != scope {
+			rep.DistinctNontrivial(kit.Hash("P", fmt.Sprint(scope), t.Text))
+		}
+
+		// (1) show path, ids
+		ids, err := st.x.idx.SearchSeriesByTableAndCond(bname, t.expr[c10PathRaw], DefaultTR)
+		got, merr := st.maskOfIDs(ids)
+		if single >= 0 {
+			st.atomObs[c10PathRaw][single] |= got
+		}
+		if err != nil || merr != nil {
+			st.violation(rep, "search_error", "SearchSeriesByTableAndCond|"+name+"|"+t.Text, fmt.Sprintf("%v %v", err, merr), t.Text)
+		} else if got != want {
+			g := got
+			st.report(rep, t, c10PathRaw, "SearchSeriesByTableAndCond", name, scope, want, c10MaskString(got), got, true, single, func(h uint16) bool { return h == g })
+		}
+
+		// (2) select path, ids (tag-filter cache, all-AND fast path)
+		itr, err := st.x.idx.SearchSeriesIterator(nil, bname, &query.ProcessorOptions{Condition: t.expr[c10PathSel]})
+		var sids []uint64
+		if itr != nil && err == nil {
+			sids = itr.Ids().AppendTo(nil)
+		}
+		sgot, merr := st.maskOfIDs(sids)
+		if single >= 0 {
+			st.atomObs[c10PathSel][single] |= sgot
+		}
+		if err != nil || merr != nil {
+			st.violation(rep, "search_error", "SearchSeriesIterator|"+name+"|"+t.Text, fmt.Sprintf("%v %v", err, merr), t.Text)
+		} else if sgot != want {
+			g := sgot
+			st.report(rep, t, c10PathSel, "SearchSeriesIterator", name, scope, want, c10MaskString(sgot), sgot, true, single, func(h uint16) bool { return h == g })
+		}
+
+		// (3) show tag values with the condition
+		tv, err := st.x.idx.SearchTagValues(bname, [][]byte{[]byte("host"), []byte("region")}, t.expr[c10PathRaw])
+		if err != nil {
+			st.violation(rep, "search_error", "SearchTagValues|"+name+"|"+t.Text, err.Error(), t.Text)
+		} else {
+			for i, tk := range []string{"host", "region"} {
+				var gotv []string
+				if tv != nil {
+					gotv = append(gotv, tv[i]...)
+					sort.Strings(gotv)
+				}
+				gs := strings.Join(gotv, "\x1f")
+				if gs != strings.Join(c10TagValues(want, tk), "\x1f") {
+					key := tk
+					st.report(rep, t, c10PathRaw, "SearchTagValues("+tk+")", name, scope, want, fmt.Sprintf("%q, want values %q", gotv, c10TagValues(want, tk)), 0, false, single,
+						func(h uint16) bool { return strings.Join(c10TagValues(h, key), "\x1f") == gs })
+				}
+			}
+		}
+		if !full {
+			continue
+		}
+
+		// (4) show series (keys as text) and (5) series cardinality with the condition
+		keys, err := st.x.idx.SearchSeriesKeys(nil, bname, t.expr[c10PathRaw])
+		kgot, merr := st.maskOfTexts(keys)
+		for _, b := range keys {
+			influx.PutBytesBuffer(b)
+		}
+		if err != nil || merr != nil {
+			st.violation(rep, "search_error", "SearchSeriesKeys|"+name+"|"+t.Text, fmt.Sprintf("%v %v", err, merr), t.Text)
+		} else if kgot != want {
+			g := kgot
+			st.report(rep, t, c10PathRaw, "SearchSeriesKeys", name, scope, want, c10MaskString(kgot), kgot, true, single, func(h uint16) bool { return h == g })
+		}
+		c, err := st.x.idx.SeriesCardinality(bname, t.expr[c10PathRaw], DefaultTR)
+		if err != nil {
+			st.violation(rep, "search_error", "SeriesCardinality|"+name+"|"+t.Text, err.Error(), t.Text)
+		} else if int(c) != c10Pop(want) {
+			cc := int(c)
+			st.report(rep, t, c10PathRaw, "SeriesCardinality", name, scope, want, fmt.Sprint(c), 0, false, single, func(h uint16) bool { return c10Pop(h) == cc })
+		}
+	}
+}
+
+var c10AtomTrees []*c10Tree
+
+// atomSweep checks every one-atom predicate and records what the index answers for each atom.
+func (st *c10State) atomSweep(rep *kit.Report, natoms int) {
+	for p := 0; p < c10NPaths; p++ {
+		st.atomObs[p] = make([]uint16, len(c10AtomList))
+	}
+	st.atomObsOK = false
+	for a := 0; a < natoms; a++ {
+		st.checkTree(rep, c10AtomTrees[a], true, a)
+	}
+	st.atomObsOK = true
+}
+
+func (st *c10State) guard(rep *kit.Report, what string, f func()) {
+	defer func() {
+		if r := recover(); r != nil {
+			st.violation(rep, "panic", what, fmt.Sprint(r), "")
+		}
+	}()
+	f()
+}
+
+// ---------------------------------------------------------------------------------------------
+// history exploration
+
+const (
+	c10OpFlush   = c10NK
+	c10OpClear   = c10NK + 1
+	c10OpRestart = c10NK + 2
+	c10OpReopen  = c10NK + 3
+	c10NOps      = c10NK + 4
+)
+
+func c10OpName(op int) string {
+	switch {
+	case op < c10NK:
+		return fmt.Sprintf("ins%d", op)
+	case op == c10OpFlush:
+		return "flush"
+	case op == c10OpClear:
+		return "clear"
+	case op == c10OpRestart:
+		return "restart"
+	case op == c10OpReopen:
+		return "reopen"
+	}
+	panic("op")
+}
+
+func c10OpByName(s string) int {
+	for op := 0; op < c10NOps; op++ {
+		if c10OpName(op) == s {
+			return op
+		}
+	}
+	panic("c10: unknown op " + s)
+}
+
+func c10OpNames(seq []int) []string {
+	out := make([]string, len(seq))
+	for i, op := range seq {
+		out[i] = c10OpName(op)
+	}
+	return out
+}
+
+// model state used by the enumerator (no index needed)
+type c10Model struct {
+	inserted, pending, uncached uint16
+	last                        int // last op, -1 at start
+}
+
+func (m c10Model) apply(op int) c10Model {
+	n := m
+	n.last = op
+	switch {
+	case op < c10NK:
+		b := uint16(1) << uint(op)
+		if m.inserted&b == 0 {
+			n.inserted |= b
+			n.pending |= b
+		}
+	case op == c10OpFlush, op == c10OpRestart, op == c10OpReopen:
+		n.pending, n.uncached = 0, 0
+	case op == c10OpClear:
+		n.uncached = m.pending
+	}
+	return n
+}
+
+// noop: operations that provably leave the real state unchanged (the shorter sequence is explored anyway).
+func (m c10Model) noop(op int) bool {
+	switch {
+	case op < c10NK:
+		b := uint16(1) << uint(op)
+		// re-insert of a series the lookup finds (flushed, or still cached): same lookup the id oracle
+		// just did, nothing is written
+		return m.inserted&b != 0 && m.uncached&b == 0
+	case op == c10OpFlush:
+		return m.pending == 0
+	case op == c10OpClear:
+		// caches were just dropped/recreated and only the (read-only) oracle ran since
+		return m.last == -1 || m.last == c10OpClear || m.last == c10OpRestart || m.last == c10OpReopen
+	}
+	return false
+}
+
+// c10Enumerate calls f for every maximal sequence (length depth).
+func c10Enumerate(depth int, prune bool, keys []int, f func(seq []int)) {
+	ops := append([]int(nil), keys...)
+	ops = append(ops, c10OpFlush, c10OpClear, c10OpRestart, c10OpReopen)
+	var rec func(m c10Model, seq []int)
+	rec = func(m c10Model, seq []int) {
+		if len(seq) == depth {
+			f(seq)
+			return
+		}
+		for _, op := range ops {
+			if prune && m.noop(op) {
+				continue
+			}
+			rec(m.apply(op), append(seq, op))
+		}
+	}
+	rec(c10Model{last: -1}, make([]int, 0, depth))
+}
+
+type c10Runner struct {
+	rep     *kit.Report
+	root    string
+	n       int
+	recheck map[string]int
+	// prefixes at which a history was stopped by a violation that corrupts the state (second id for one
+	// series ...): every extension fails at the same step in the same way, so it is run once per worker
+	stopped map[string]bool
+}
+
+// runHistory executes one sequence on a fresh index; returns the number of violations it added.
+func (r *c10Runner) runHistory(seq []int, sweepEvery bool, tree string) (int64, []string) {
+	rep := r.rep
+	before := rep.NViolations
+	names := c10OpNames(seq)
+	if r.stopped != nil {
+		for i := 1; i <= len(names); i++ {
+			if r.stopped[strings.Join(names[:i], ",")] {
+				rep.Count("histories_skipped_extension_of_stopped_prefix", 1)
+				return 0, nil
+			}
+		}
+	}
+	r.n++
+	dir := filepath.Join(r.root, fmt.Sprintf("h%d", r.n))
+	if err := os.MkdirAll(dir, 0o755); err != nil {
+		panic(err)
+	}
+	defer os.RemoveAll(dir)
+	seqv := uint64(c10SeqSeed)
+	st := &c10State{x: c10Open(dir, 1, &seqv)}
+	closed := false
+	defer func() {
+		if !closed {
+			func() {
+				defer func() { _ = recover() }()
+				st.x.close()
+			}()
+		}
+	}()
+	nontrivial := false
+	sawInsert := false
+	for step, op := range seq {
+		st.label = "history " + strings.Join(names[:step+1], ",")
+		cur := append([]string(nil), names[:step+1]...)
+		st.replay = func(tree string) any { return c10Case{Kind: "history", Ops: cur, Tree: tree} }
+		stop := false
+		st.guard(rep, "op "+names[step], func() {
+			switch {
+			case op < c10NK:
+				sawInsert = true
+				bit := uint16(1) << uint(op)
+				id, err := st.x.insert(op, false)
+				rep.Eval(1)
+				if err != nil || id == 0 {
+					st.violation(rep, "insert_error", names[step], fmt.Sprintf("id %x err %v", id, err), "")
+					stop = true
+					return
+				}
+				if st.inserted&bit != 0 {
+					if id != st.ids[op] {
+						kind := "id_changed"
+						if st.uncached&bit != 0 {
+							// the series' items are still raw (unflushed) and the caches were dropped: lookup-before-create
+							// sees neither
+							kind = "second_id_after_cache_clear_before_flush"
+						}
+						st.violation(rep, kind, names[step], fmt.Sprintf("series %q had id %x, inserting it again returned %x", c10Render[op], st.ids[op], id), "")
+						stop = true // the index now holds two ids for one series; nothing further to learn on this branch
+					}
+					return
+				}
+				for k := 0; k < c10NK; k++ {
+					if st.ids[k] == id {
+						st.violation(rep, "id_shared", names[step], fmt.Sprintf("new series %q got id %x which already belongs to %q", c10Render[op], id, c10Render[k]), "")
+						stop = true
+					}
+				}
+				st.ids[op] = id
+				st.inserted |= bit
+				st.pending |= bit
+			case op == c10OpFlush:
+				st.x.builder.Flush()
+				st.pending, st.uncached = 0, 0
+			case op == c10OpClear:
+				if err := st.x.builder.ClearCache(); err != nil {
+					st.violation(rep, "clear_cache_error", names[step], err.Error(), "")
+				}
+				st.uncached = st.pending
+			case op == c10OpRestart:
+				st.x.close()
+				nseq := uint64(c10SeqSeed) // a restarted process seeds the counter again; the logical clock moved on
+				st.x = c10Open(dir, st.x.clock+1, &nseq)
+				st.pending, st.uncached = 0, 0
+			case op == c10OpReopen:
+				st.x.close()
+				st.x.open()
+				st.pending, st.uncached = 0, 0
+			}
+		})
+		if op >= c10NK && sawInsert {
+			nontrivial = true
+		}
+		if stop || rep.NViolations-before > 20 {
+			if r.stopped != nil {
+				r.stopped[strings.Join(names[:step+1], ",")] = true
+			}
+			break
+		}
+		rep.Count("transitions", 1)
+		st.guard(rep, "oracle", func() {
+			st.idOracle(rep)
+			if !st.listing(rep) {
+				stop = true
+				return
+			}
+			if sweepEvery || step == len(seq)-1 {
+				if tree == "" {
+					st.atomSweep(rep, len(c10AtomList))
+				} else if step == len(seq)-1 {
+					// replay of one predicate: the per-atom observations are needed for the classification only
+					st.atomSweep(kit.NewReport("C10-replay-scratch"), len(c10AtomList))
+					st.kinds = nil
+					st.checkTree(rep, c10NewTree(tree), true, -1)
+				}
+			}
+		})
+		if stop {
+			break
+		}
+	}
+	if nontrivial {
+		rep.DistinctNontrivial(kit.Hash("H", strings.Join(names, ",")))
+	}
+	st.guard(rep, "close", func() { st.x.close() })
+	closed = true
+	return rep.NViolations - before, st.kinds
+}
+
+// ---------------------------------------------------------------------------------------------
+// scenarios: fixed rich states for the big predicate sweeps
+
+type c10Scenario struct {
+	Name string
+	Ops  []string
+}
+
+var c10Scenarios = []c10Scenario{
+	{"all_flushed", []string{"ins0", "ins1", "ins2", "ins3", "ins4", "ins5", "ins6", "ins7", "flush"}},
+	{"all_restarted", []string{"ins0", "ins1", "ins2", "ins3", "ins4", "ins5", "ins6", "ins7", "restart"}},
+	{"half_unflushed", []string{"ins0", "ins3", "ins5", "ins6", "flush", "ins1", "ins2", "ins4", "ins7"}},
+	{"part_per_series_cold", []string{"ins7", "flush", "ins5", "flush", "ins3", "flush", "ins1", "flush", "ins6", "flush", "ins4", "flush", "ins2", "flush", "ins0", "flush", "clear"}},
+	{"two_parts_reopened", []string{"ins1", "ins2", "ins6", "flush", "reopen", "ins0", "ins4", "ins3", "flush"}},
+}
+
+func (r *c10Runner) buildScenario(sc c10Scenario) *c10State {
+	dir := filepath.Join(r.root, "sc_"+sc.Name)
+	_ = os.RemoveAll(dir)
+	if err := os.MkdirAll(dir, 0o755); err != nil {
+		panic(err)
+	}
+	seqv := new(uint64)
+	*seqv = c10SeqSeed
+	st := &c10State{x: c10Open(dir, 1, seqv), label: "scenario " + sc.Name}
+	name := sc.Name
+	st.replay = func(tree string) any { return c10Case{Kind: "scenario", Scenario: name, Tree: tree} }
+	for i, o := range sc.Ops {
+		op := c10OpByName(o)
+		switch {
+		case op < c10NK:
+			id, err := st.x.insert(op, i%2 == 1) // alternate the two insert entry points
+			if err != nil || id == 0 {
+				panic(fmt.Sprintf("c10: scenario insert failed: %v", err))
+			}
+			st.ids[op] = id
+			st.inserted |= 1 << uint(op)
+			st.pending |= 1 << uint(op)
+		case op == c10OpFlush:
+			st.x.builder.Flush()
+			st.pending = 0
+		case op == c10OpClear:
+			_ = st.x.builder.ClearCache()
+		case op == c10OpRestart:
+			st.x.close()
+			nseq := uint64(c10SeqSeed)
+			st.x = c10Open(dir, st.x.clock+1, &nseq)
+			st.pending = 0
+		case op == c10OpReopen:
+			st.x.close()
+			st.x.open()
+			st.pending = 0
+		}
+	}
+	return st
+}
+
+var c10Connectives = []string{"AND", "OR"}
+
+// c10TwoAtomTexts: a o b, and the parenthesised spellings for a subset (parser/ParenExpr handling).
+func c10TwoAtomTexts(f func(text string)) {
+	for i := range c10AtomList {
+		for j := range c10AtomList {
+			for _, o := range c10Connectives {
+				a, b := c10AtomList[i].Text, c10AtomList[j].Text
+				f(a + " " + o + " " + b)
+				if i < c10NCoreAtoms && j < c10NCoreAtoms && (i+j)%7 == 0 {
+					f("(" + a + ") " + o + " (" + b + ")")
+					f("(" + a + " " + o + " " + b + ")")
+				}
+			}
+		}
+	}
+}
+
+func c10ThreeAtomTexts(f func(text string) bool) {
+	n := c10NCoreAtoms
+	for i := 0; i < n; i++ {
+		for j := 0; j < n; j++ {
+			for k := 0; k < n; k++ {
+				a, b, c := c10AtomList[i].Text, c10AtomList[j].Text, c10AtomList[k].Text
+				for _, o1 := range c10Connectives {
+					for _, o2 := range c10Connectives {
+						if !f(a+" "+o1+" "+b+" "+o2+" "+c) || // precedence decided by the parser
+							!f("("+a+" "+o1+" "+b+") "+o2+" "+c) ||
+							!f(a+" "+o1+" ("+b+" "+o2+" "+c+")") {
+							return
+						}
+					}
+				}
+			}
+		}
+	}
+}
+
+// ---------------------------------------------------------------------------------------------
+
+func c10WritePathNote(rep *kit.Report) {
+	var rs influx.PointRows
+	err := rs.Unmarshal("m,host=,region=a f=1 1", false)
+	kept := false
+	if err == nil && len(rs.Rows) == 1 {
+		for _, t := range rs.Rows[0].Tags {
+			if t.Key == "host" {
+				kept = true
+			}
+		}
+	}
+	rep.Note("write path: line protocol 'm,host=,region=a f=1' parsed with err=%v, empty-valued tag kept=%v (dropped => equals the series lacking the tag, which K contains)", err, kept)
+}
+
+func TestVerifC10(t *testing.T) {
 	rep := kit.NewReport("C10")
 	defer rep.Save()
-	dir := filepath.Join(kit.Scratch(), "probe")
-	os.MkdirAll(dir, 0o755)
-	seq := uint64(1000)
-	t0 := time.Now()
-	x := c10Open(dir, 1, &seq)
-	fmt.Println("open", time.Since(t0))
-	keys := []c10Key{
-		{"m_0000", []c10Tag{{"host", "a"}, {"region", "b"}}},
-		{"m_0000", []c10Tag{{"host", "b"}, {"region", "a"}}},
-		{"m_0000", []c10Tag{{"host", "ab"}}},
-		{"m_0000", []c10Tag{{"region", "a"}}},
-		{"m_0000", []c10Tag{{"host", "xa"}, {"region", "ba"}}},
-		{"m_0000", []c10Tag{{"host", "a1"}, {"region", "é"}}},
-		{"m_0000", []c10Tag{{"host", "a b,c=d\x00\x01\x02"}, {"region", ""}}},
+	_ = logger.SetLevel("error")
+	// Only the cache *sizes* are configured (32 MB each instead of a fraction of the machine's memory, which
+	// costs milliseconds per open); everything else is the default configuration GetIndexConfig() returns.
+	config.SetIndexConfig(&config.Index{TSIDCacheSize: 32 << 20, SKeyCacheSize: 32 << 20, TagCacheSize: 32 << 20,
+		TagFilterCostCacheSize: 32 << 20, CacheCompressEnable: true})
+	c10InitKeys()
+	c10InitAtoms()
+	for _, a := range c10AtomList {
+		c10AtomTrees = append(c10AtomTrees, c10NewTree(a.Text))
 	}
-	for _, k := range keys {
-		id, err := x.insert(k)
-		fmt.Printf("insert %v -> %x %v\n", k, id, err)
+	r := &c10Runner{rep: rep, root: filepath.Join(kit.Scratch(), "c10"), recheck: map[string]int{}, stopped: map[string]bool{}}
+	if err := os.MkdirAll(r.root, 0o755); err != nil {
+		t.Fatal(err)
 	}
-	id, err := x.insert(keys[0])
-	fmt.Printf("reinsert -> %x %v\n", id, err)
-	x.idx.ClearCache()
-	id, err = x.insert(keys[0])
-	fmt.Printf("reinsert after clear (unflushed) -> %x %v\n", id, err)
-	t0 = time.Now()
-	x.idx.DebugFlush()
-	fmt.Println("flush", time.Since(t0))
-	for _, c := range []string{`host='a'`, `host!='a'`, `host=''`, `host!=''`, `host=~/a/`, `host=~/^a$/`, `host=~/a|b/`, `host=~/[ab]/`, `host=~/a.*/`, `host=~/.*/`, `host=~/^$/`,
-		`host!~/a/`, `host!~/^a$/`, `host!~/a|b/`, `host!~/[ab]/`, `host!~/a.*/`, `host!~/.*/`, `host!~/^$/`, `host=~/a[0-9]/`, `host=~/^a/`, `host=~/a$/`, `region=~/^$/`, `region=''`} {
-		e := MustParseExpr(c)
-		t0 = time.Now()
-		s, err := x.idx.SearchSeriesKeys(nil, []byte("m_0000"), e)
-		d1 := time.Since(t0)
-		var ss []string
-		for _, b := range s {
-			ss = append(ss, string(b))
+
+	if kit.ReplayPath() != "" {
+		var c c10Case
+		if err := kit.LoadReplay(&c); err != nil {
+			t.Fatal(err)
 		}
-		sort.Strings(ss)
-		opt := &query.ProcessorOptions{Condition: e}
-		t0 = time.Now()
-		itr, err2 := x.idx.SearchSeriesIterator(nil, []byte("m_0000"), opt)
-		d2 := time.Since(t0)
-		n := -1
-		if itr != nil {
-			n = int(itr.Ids().Len())
+		switch c.Kind {
+		case "history":
+			seq := make([]int, len(c.Ops))
+			for i, o := range c.Ops {
+				seq[i] = c10OpByName(o)
+			}
+			// a history recorded without a predicate failed in an operation or in the id/listing oracle
+			r.stopped = nil
+			if c.Tree == "" {
+				c.Tree = "host = 'a'"
+			}
+			r.runHistory(seq, false, c.Tree)
+		case "scenario":
+			for _, sc := range c10Scenarios {
+				if sc.Name != c.Scenario {
+					continue
+				}
+				st := r.buildScenario(sc)
+				st.idOracle(rep)
+				st.listing(rep)
+				if c.Tree == "" {
+					st.atomSweep(rep, len(c10AtomList))
+				} else {
+					st.atomSweep(kit.NewReport("C10-replay-scratch"), len(c10AtomList))
+					st.checkTree(rep, c10NewTree(c.Tree), true, -1)
+				}
+				st.x.close()
+			}
+		default:
+			t.Fatalf("unknown replay kind %q", c.Kind)
 		}
-		tv, err3 := x.idx.SearchTagValues([]byte("m_0000"), [][]byte{[]byte("host"), []byte("region")}, e)
-		fmt.Printf("%-20s %v %v %q\n    itr n=%d %v %v  tv=%q %v\n", c, d1, err, ss, n, err2, d2, tv, err3)
+		return
 	}
-	t0 = time.Now()
-	x.builder.Close()
-	fmt.Println("close", time.Since(t0))
-	t0 = time.Now()
-	x = c10Open(dir, 1, &seq)
-	fmt.Println("reopen", time.Since(t0))
-	id, err = x.insert(keys[0])
-	fmt.Printf("reinsert after reopen -> %x %v\n", id, err)
-	x.builder.Close()
+
+	if kit.Shard() == 0 {
+		c10WritePathNote(rep)
+	}
+	phase := os.Getenv("VERIF_C10_PHASE") // debugging aid: "hist" or "pred" runs one part only
+	if phase != "hist" {
+		c10RunPredicates(r, rep, kit.Thorough())
+	}
+	if phase != "pred" {
+		c10RunHistories(r, rep, kit.Thorough())
+	}
+}
+
+// c10RunPredicates: part 2, predicate sweeps on the scenarios (trees sharded over the workers; every
+// worker builds its own copy of every scenario).
+func c10RunPredicates(r *c10Runner, rep *kit.Report, thorough bool) {
+	var states []*c10State
+	for _, sc := range c10Scenarios {
+		st := r.buildScenario(sc)
+		st.guard(rep, "scenario oracle", func() {
+			st.idOracle(rep)
+			st.listing(rep)
+			st.atomSweep(rep, len(c10AtomList)) // every worker needs the per-atom observations
+		})
+		states = append(states, st)
+	}
+	rep.Max("max_scenario_states", int64(len(states)))
+	idx := 0
+	ntrees := int64(0)
+	c10TwoAtomTexts(func(text string) {
+		mine := kit.Mine(idx)
+		idx++
+		if !mine {
+			return
+		}
+		ntrees++
+		tr := c10NewTree(text)
+		for _, st := range states {
+			st.guard(rep, "tree "+text, func() { st.checkTree(rep, tr, true, -1) })
+		}
+	})
+	rep.Count("trees_2_atoms", ntrees)
+	rep.Max("max_trees_1_atom", int64(len(c10AtomList)))
+	if thorough {
+		n3 := int64(0)
+		cut := false
+		c10ThreeAtomTexts(func(text string) bool {
+			mine := kit.Mine(idx)
+			idx++
+			if !mine {
+				return true
+			}
+			if n3%512 == 0 && rep.Expired() {
+				cut = true
+				return false
+			}
+			n3++
+			tr := c10NewTree(text)
+			for _, st := range states {
+				st.guard(rep, "tree "+text, func() { st.checkTree(rep, tr, true, -1) })
+			}
+			return true
+		})
+		rep.Count("trees_3_atoms", n3)
+		if cut {
+			rep.Cut("3-atom sweep cut by the deadline")
+		}
+	}
+	for _, st := range states {
+		st.guard(rep, "close scenario", func() { st.x.close() })
+	}
+}
+
+type c10Plan struct {
+	Keys  []int
+	Depth int
+}
+
+// c10RunHistories: part 1.
+func c10RunHistories(r *c10Runner, rep *kit.Report, thorough bool) {
+	all := []int{0, 1, 2, 3, 4, 5, 6, 7}
+	plans := []c10Plan{{all, 4}}
+	if thorough {
+		plans = []c10Plan{{all, 5}, {[]int{0, 3, 5, 6, 7}, 6}}
+	}
+	if v := os.Getenv("VERIF_C10_DEPTH"); v != "" { // debugging aid
+		var d int
+		fmt.Sscan(v, &d)
+		plans = []c10Plan{{all, d}}
+	}
+	i := 0
+	done := int64(0)
+	for _, pl := range plans {
+		rep.Max("max_history_depth", int64(pl.Depth))
+		c10Enumerate(pl.Depth, true, pl.Keys, func(seq []int) {
+			mine := kit.Mine(i)
+			i++
+			if !mine || rep.Expired() {
+				return
+			}
+			s := append([]int(nil), seq...)
+			nv, kinds := r.runHistory(s, !thorough, "")
+			done++
+			if nv > 0 && len(kinds) > 0 && r.recheck[kinds[0]] < 3 {
+				// determinism rule: a failing history must fail the same way when re-executed from scratch
+				r.recheck[kinds[0]]++
+				rr := &c10Runner{rep: kit.NewReport("C10-recheck"), root: r.root, n: 1 << 20}
+				nv2, kinds2 := rr.runHistory(s, !thorough, "")
+				if nv2 != nv || strings.Join(kinds, ",") != strings.Join(kinds2, ",") {
+					panic(fmt.Sprintf("c10: history %v is not deterministic: %d %v then %d %v", c10OpNames(s), nv, kinds, nv2, kinds2))
+				}
+				rep.Count("violating_histories_reexecuted_same_verdict", 1)
+			}
+		})
+	}
+	rep.Count("histories", done)
+	rep.Count("states", done) // final states of maximal histories; intermediate states are counted as transitions
+	if rep.Expired() {
+		rep.Cut("history exploration cut by the deadline")
+	}
 }
